@@ -42,6 +42,8 @@ class _State:
     n_atoms = 0
     n_fresh = 0
     abs_atoms = {}         # atom id -> SR q  (atom == |q|), so atom**2 == q**2
+    nonneg_atoms = set()   # atoms known to be >= 0 (abs values, roots)
+    squares = {}           # key of a*a -> a   (so sqrt(a*a) = |a| without a root atom)
 
 
 ST = _State()
@@ -53,6 +55,8 @@ def reset_atoms():
     ST.n_atoms = 0
     ST.n_fresh = 0
     ST.abs_atoms = {}
+    ST.nonneg_atoms = set()
+    ST.squares = {}
 
 
 def _new_atom(zexpr):
@@ -141,13 +145,221 @@ def _scalar_array_ufunc(self, ufunc, method, *inputs, **kw):
     return res
 
 
+# ---------------------------------------------------------------------------------
+# raw polynomial helpers (dict monomial -> Fraction)
+# ---------------------------------------------------------------------------------
+def _padd(p1, p2):
+    if not p2:
+        return p1
+    if not p1:
+        return p2
+    p = dict(p1)
+    for m, c in p2.items():
+        v = p.get(m, ZERO) + c
+        if v:
+            p[m] = v
+        else:
+            p.pop(m, None)
+    return p
+
+
+def _pscale(p, c):
+    if c == 1:
+        return p
+    if c == 0:
+        return {}
+    return {m: k * c for m, k in p.items()}
+
+
+def _pmul(p1, p2):
+    if not p1 or not p2:
+        return {}
+    if len(p2) == 1 and () in p2:
+        return _pscale(p1, p2[()])
+    if len(p1) == 1 and () in p1:
+        return _pscale(p2, p1[()])
+    p = {}
+    for m1, c1 in p1.items():
+        for m2, c2 in p2.items():
+            m = _mono_mul(m1, m2)
+            v = p.get(m, ZERO) + c1 * c2
+            if v:
+                p[m] = v
+            else:
+                p.pop(m, None)
+    if len(p) > MAX_MONOMIALS:
+        raise SymUnsupported('polynomial blow-up (%d monomials)' % len(p))
+    if ST.abs_atoms:
+        p = _reduce_abs_squares(p)
+    return p
+
+
+_PONE = {(): ONE}
+
+
+def _mkey(m):
+    # lexicographic monomial order (compatible with multiplication)
+    return tuple((-a, e) for a, e in m)
+
+
+def _mono_cmp_key(m):
+    d = dict(m)
+    return d
+
+
+def _lead(p):
+    """leading monomial under lex order on atom ids (smaller id = more significant)."""
+    best = None
+    bk = None
+    for m in p:
+        k = tuple(sorted(((a, e) for a, e in m)))
+        # compare as exponent vectors: build sparse key
+        if best is None or _mono_gt(m, best):
+            best = m
+    return best
+
+
+def _mono_gt(m1, m2):
+    d1, d2 = dict(m1), dict(m2)
+    for a in sorted(set(d1) | set(d2)):
+        e1, e2 = d1.get(a, 0), d2.get(a, 0)
+        if e1 != e2:
+            return e1 > e2
+    return False
+
+
+def _mono_div(m1, m2):
+    """m1 / m2 or None."""
+    d = dict(m1)
+    for a, e in m2:
+        k = d.get(a, 0) - e
+        if k < 0:
+            return None
+        if k:
+            d[a] = k
+        else:
+            d.pop(a, None)
+    return tuple(sorted(d.items()))
+
+
+def _pdivexact(n, d, budget=40000):
+    """polynomial q with n = q*d, or None."""
+    if len(d) == 1:
+        (dm, dc), = d.items()
+        q = {}
+        for m, c in n.items():
+            mm = _mono_div(m, dm)
+            if mm is None:
+                return None
+            q[mm] = c / dc
+        return q
+    if len(n) * len(d) > budget or len(n) < len(d) and False:
+        return None
+    ld = _lead(d)
+    ldc = d[ld]
+    rem = dict(n)
+    q = {}
+    steps = 0
+    while rem:
+        steps += 1
+        if steps > 4000:
+            return None
+        lr = _lead(rem)
+        mm = _mono_div(lr, ld)
+        if mm is None:
+            return None
+        c = rem[lr] / ldc
+        q[mm] = q.get(mm, ZERO) + c
+        rem = _padd(rem, _pscale(_pmul({mm: ONE}, d), -c))
+    return q
+
+
+def _evidently_pos(p):
+    """every monomial has even exponents only and a positive coefficient (so the polynomial is > 0 unless all
+    its atoms vanish; callers know it is non-zero on the path)."""
+    if not p:
+        return False
+    for m, c in p.items():
+        if c <= 0:
+            return False
+        for a, e in m:
+            if e % 2 and a not in ST.nonneg_atoms:
+                return False
+    return True
+
+
+def _mk(n, d=None):
+    """normalised SR from numerator / denominator polynomial dicts."""
+    if not n:
+        return 0.0
+    if d is not None:
+        if len(d) == 1 and () in d:
+            n = _pscale(n, 1 / d[()])
+            d = None
+        else:
+            if n == d:
+                return 1.0
+            q = _pdivexact(n, d)
+            if q is not None:
+                n, d = q, None
+            else:
+                # cancel a common monomial factor and normalise the denominator's leading coefficient
+                common = None
+                for m in list(n) + list(d):
+                    dm = dict(m)
+                    if common is None:
+                        common = dm
+                    else:
+                        common = {a: min(e, dm.get(a, 0)) for a, e in common.items() if dm.get(a, 0) > 0}
+                    if not common:
+                        break
+                if common:
+                    cm = tuple(sorted(common.items()))
+                    n = {_mono_div(m, cm): c for m, c in n.items()}
+                    d = {_mono_div(m, cm): c for m, c in d.items()}
+                lc = d[min(d)]
+                if lc != 1:
+                    n = _pscale(n, 1 / lc)
+                    d = _pscale(d, 1 / lc)
+                if len(d) == 1 and () in d:
+                    n = _pscale(n, 1 / d[()])
+                    d = None
+    r = SR(n)
+    r.q = d
+    return r
+
+
+def _zpoly(p):
+    terms = []
+    for m, c in p.items():
+        fs = []
+        for a, e in m:
+            fs.extend([ST.atoms[a]] * e)
+        if not fs:
+            terms.append(zval(c))
+        else:
+            t = fs[0]
+            for f in fs[1:]:
+                t = t * f
+            if c != 1:
+                t = zval(c) * t
+            terms.append(t)
+    if not terms:
+        return z3.RealVal(0)
+    if len(terms) == 1:
+        return terms[0]
+    return z3.Sum(terms)
+
+
 class SR(object):
-    __slots__ = ('p', '_z')
+    """rational function  p / q  over atoms (q is None for a polynomial)."""
+    __slots__ = ('p', 'q', '_z')
     __array_ufunc__ = _scalar_array_ufunc
     __array_priority__ = 1000
 
     def __init__(self, p):
         self.p = p
+        self.q = None
         self._z = None
 
     # -- constructors -------------------------------------------------------------
@@ -166,7 +378,10 @@ class SR(object):
 
     # -- inspection ---------------------------------------------------------------
     def is_const(self):
-        return not self.p or (len(self.p) == 1 and () in self.p)
+        return self.q is None and (not self.p or (len(self.p) == 1 and () in self.p))
+
+    def is_poly(self):
+        return self.q is None
 
     def const_value(self):
         return self.p.get((), ZERO)
@@ -176,52 +391,42 @@ class SR(object):
 
     def atoms(self):
         s = set()
-        for m in self.p:
-            for a, _ in m:
-                s.add(a)
+        for pp in (self.p, self.q or {}):
+            for m in pp:
+                for a, _ in m:
+                    s.add(a)
         return s
 
     def key(self):
-        return tuple(sorted(self.p.items()))
+        return (tuple(sorted(self.p.items())), tuple(sorted(self.q.items())) if self.q is not None else None)
 
     def same(self, other):
         o = _lift(other)
-        return o is not None and o.p == self.p
+        return o is not None and o.p == self.p and o.q == self.q
+
+    def num(self):
+        return SR(self.p)
+
+    def den(self):
+        return SR(self.q) if self.q is not None else SR(dict(_PONE))
 
     @property
     def z(self):
         if self._z is None:
-            terms = []
-            for m, c in self.p.items():
-                fs = []
-                for a, e in m:
-                    fs.extend([ST.atoms[a]] * e)
-                if not fs:
-                    terms.append(zval(c))
-                else:
-                    t = fs[0]
-                    for f in fs[1:]:
-                        t = t * f
-                    if c != 1:
-                        t = zval(c) * t
-                    terms.append(t)
-            if not terms:
-                self._z = z3.RealVal(0)
-            elif len(terms) == 1:
-                self._z = terms[0]
-            else:
-                self._z = z3.Sum(terms)
+            n = _zpoly(self.p)
+            self._z = n if self.q is None else n / _zpoly(self.q)
         return self._z
 
     def eval(self, valuation):
-        """Evaluate under {atom id -> Fraction}."""
-        tot = ZERO
-        for m, c in self.p.items():
-            t = c
-            for a, e in m:
-                t *= valuation[a] ** e
-            tot += t
-        return tot
+        def ev(p):
+            tot = ZERO
+            for m, c in p.items():
+                t = c
+                for a, e in m:
+                    t *= valuation[a] ** e
+                tot += t
+            return tot
+        return ev(self.p) if self.q is None else ev(self.p) / ev(self.q)
 
     # -- arithmetic ---------------------------------------------------------------
     def __add__(self, o):
@@ -234,14 +439,21 @@ class SR(object):
             return NotImplemented
         if not o.p:
             return self
-        p = dict(self.p)
-        for m, c in o.p.items():
-            v = p.get(m, ZERO) + c
-            if v:
-                p[m] = v
-            else:
-                p.pop(m, None)
-        return _norm(p)
+        if self.q is None and o.q is None:
+            return _mk(_padd(self.p, o.p))
+        if self.q == o.q:
+            return _mk(_padd(self.p, o.p), self.q)
+        d1 = self.q if self.q is not None else _PONE
+        d2 = o.q if o.q is not None else _PONE
+        # use a smaller common denominator when one divides the other
+        if d1 is not _PONE and d2 is not _PONE:
+            k = _pdivexact(d1, d2)
+            if k is not None:
+                return _mk(_padd(self.p, _pmul(o.p, k)), d1)
+            k = _pdivexact(d2, d1)
+            if k is not None:
+                return _mk(_padd(_pmul(self.p, k), o.p), d2)
+        return _mk(_padd(_pmul(self.p, d2), _pmul(o.p, d1)), _pmul(d1, d2))
 
     def __radd__(self, o):
         if isinstance(o, np.ndarray):
@@ -249,7 +461,9 @@ class SR(object):
         return self.__add__(o)
 
     def __neg__(self):
-        return SR({m: -c for m, c in self.p.items()})
+        r = SR({m: -c for m, c in self.p.items()})
+        r.q = self.q
+        return r
 
     def __pos__(self):
         return self
@@ -286,26 +500,29 @@ class SR(object):
             return NotImplemented
         if not o.p or not self.p:
             return 0.0
-        if len(o.p) == 1 and () in o.p:
-            c = o.p[()]
-            return SR({m: k * c for m, k in self.p.items()})
-        if len(self.p) == 1 and () in self.p:
-            c = self.p[()]
-            return SR({m: k * c for m, k in o.p.items()})
-        p = {}
-        for m1, c1 in self.p.items():
-            for m2, c2 in o.p.items():
-                m = _mono_mul(m1, m2)
-                v = p.get(m, ZERO) + c1 * c2
-                if v:
-                    p[m] = v
-                else:
-                    p.pop(m, None)
-        if len(p) > MAX_MONOMIALS:
-            raise SymUnsupported('polynomial blow-up (%d monomials)' % len(p))
-        if ST.abs_atoms:
-            p = _reduce_abs_squares(p)
-        return _norm(p)
+        if self.q is None and o.q is None:
+            r = _mk(_pmul(self.p, o.p))
+            if isinstance(r, SR) and self.p == o.p and len(self.p) > 1:
+                ST.squares[r.key()] = self
+            return r
+        if self.p == o.p and self.q == o.q:
+            r = _mk(_pmul(self.p, self.p), _pmul(self.q, self.q))
+            if isinstance(r, SR):
+                ST.squares[r.key()] = self
+            return r
+        n1, d1 = self.p, self.q
+        n2, d2 = o.p, o.q
+        # cross-cancel exact factors first (keeps terms small)
+        if d2 is not None:
+            k = _pdivexact(n1, d2)
+            if k is not None:
+                n1, d2 = k, None
+        if d1 is not None:
+            k = _pdivexact(n2, d1)
+            if k is not None:
+                n2, d1 = k, None
+        d = d1 if d2 is None else (d2 if d1 is None else _pmul(d1, d2))
+        return _mk(_pmul(n1, n2), d)
 
     def __rmul__(self, o):
         if isinstance(o, np.ndarray):
@@ -362,10 +579,20 @@ class SR(object):
             return zop(d, 0)
         if d.is_const():
             return zop(d.const_value(), 0)
-        d = _canon_sign(d)
-        if d[1]:   # flipped sign
-            zop = _FLIP[zop]
-        return SB(zop(d[0].z, 0))
+        if d.q is None:
+            dd = _canon_sign(d)
+            if dd[1]:   # flipped sign
+                zop = _FLIP[zop]
+            return SB(zop(dd[0].z, 0))
+        # rational: decide by the signs of numerator and denominator (the denominator is non-zero on this path)
+        N = SR(d.p)
+        if zop in (operator.eq, operator.ne):
+            return N._cmp(0.0, op, zop)
+        D = SR(d.q)
+        if _evidently_pos(d.q):
+            return N._cmp(0.0, op, zop)
+        flip = _FLIP[zop]
+        return sym_or(sym_and(N._cmp(0.0, op, zop), D > 0), sym_and(N._cmp(0.0, op, flip), D < 0))
 
     def __lt__(self, o):
         return self._cmp(o, np.less, operator.lt)
@@ -410,7 +637,7 @@ class SR(object):
     def __repr__(self):
         if self.is_const():
             return 'SR(%s)' % float(self.const_value())
-        return 'SR<%d terms, deg %d>' % (len(self.p), self.degree())
+        return 'SR<%d terms, deg %d%s>' % (len(self.p), self.degree(), '' if self.q is None else ' / %d terms' % len(self.q))
 
     # numpy calls these on object arrays
     def conjugate(self):
@@ -643,7 +870,7 @@ def sym_if(c, a, b):
     la, lb = _lift(a), _lift(b)
     if la is None or lb is None:
         raise SymUnsupported('sym_if over %r / %r' % (type(a), type(b)))
-    if la.p == lb.p:
+    if la.p == lb.p and la.q == lb.q:
         return a
     return SR.atom(z3.If(c.z, la.z, lb.z))
 
@@ -655,17 +882,21 @@ def sym_abs(x):
         return abs(x)
     if x.is_const():
         return float(abs(x.const_value()))
-    # even-power-only single monomial with positive coefficient is non-negative already
-    if len(x.p) == 1:
-        (m, c), = x.p.items()
-        if all(e % 2 == 0 for _, e in m):
-            return x if c > 0 else -x
+    if x.q is not None:
+        # |N/D| = |N| / |D|
+        return _divide(lift(sym_abs(SR(x.p))), lift(sym_abs(SR(x.q))), known_nonzero=True)
+    # a sum of even-power monomials with positive coefficients (times non-negative atoms) is non-negative already
+    if _evidently_pos(x.p):
+        return x
+    if _evidently_pos({m: -c for m, c in x.p.items()}):
+        return -x
     q, neg = _canon_sign(x)
     # |x| = |c| * |q| with q canonical, so |x| and |-x| share one atom
     c = x.p[min(x.p)]
     at = SR.atom(z3.If(q.z >= 0, q.z, -q.z))
     (m, _), = at.p.items()
     ST.abs_atoms.setdefault(m[0][0], q)
+    ST.nonneg_atoms.add(m[0][0])
     return at * abs(c)
 
 
@@ -732,45 +963,23 @@ def sym_min(a, b):
     return sym_if(c, a, b)
 
 
-def _divide(n, d):
-    """n / d for lifted SR operands."""
+def _divide(n, d, known_nonzero=False):
+    """n / d for lifted SR operands (rational-function arithmetic; the divisor must be non-zero on this path)."""
     if d.is_const():
         c = d.const_value()
         if c == 0:
             raise NonFinite('division by zero')
         return n * SR.const(1 / c) if n.p else 0.0
-    # symbolic divisor: it must be non-zero on this path
-    nz = (d != 0)
-    if not bool(nz):
-        raise NonFinite('division by a value that is zero on this path')
+    if not known_nonzero:
+        nz = (SR(d.p) != 0)
+        if not bool(nz):
+            raise NonFinite('division by a value that is zero on this path')
     if not n.p:
         return 0.0
-    # cancel a common monomial divisor when the divisor is a single monomial
-    if len(d.p) == 1:
-        (dm, dc), = d.p.items()
-        dd = dict(dm)
-        ok = all(all(dict(m).get(a, 0) >= e for a, e in dm) for m in n.p)
-        if ok:
-            p = {}
-            for m, c in n.p.items():
-                mm = dict(m)
-                for a, e in dm:
-                    mm[a] -= e
-                    if mm[a] == 0:
-                        del mm[a]
-                p[tuple(sorted(mm.items()))] = c / dc
-            return _norm(p)
-    if n.p == d.p:
-        return 1.0
-    key = ('div', n.key(), d.key())
-    eng = ST.engine
-    q = eng.defs_cache.get(key)
-    if q is None:
-        qv = fresh_real('q')
-        eng.add_def(qv * d.z == n.z)
-        q = SR.atom(qv)
-        eng.defs_cache[key] = q
-    return q
+    # (n.p/n.q) / (d.p/d.q) = (n.p * d.q) / (n.q * d.p)
+    num = n.p if d.q is None else _pmul(n.p, d.q)
+    den = d.p if n.q is None else _pmul(n.q, d.p)
+    return _mk(num, den)
 
 
 def sym_pow(x, e):
@@ -810,6 +1019,28 @@ def sym_pow(x, e):
     num, den = e.numerator, e.denominator
     if num < 0:
         return _divide(SR.const(1), lift(sym_pow(x, -e)))
+    if num == 1 and den == 2:
+        base = ST.squares.get(x.key())
+        if base is not None:
+            return sym_abs(base)
+    # factor the constant content out of the radicand:  (c * X)**e = c**e * X**e  with X canonical (leading
+    # coefficients 1), so that scaled radicands share one root atom; c**e is evaluated in doubles
+    cn = x.p[min(x.p)]
+    cd = x.q[min(x.q)] if x.q is not None else ONE
+    content = cn / cd
+    if content < 0:
+        content = -content     # sign stays inside (x >= 0 on this path, so the canonical part carries it)
+        cn = -cn
+    if content != 1:
+        X = _mk(_pscale(x.p, 1 / cn), _pscale(x.q, 1 / cd) if x.q is not None else None)
+        cf = float(content) ** float(e)
+        r = sym_pow(X, e) if isinstance(X, SR) else float(X) ** float(e)
+        return r * cf
+    # perfect power of a single monomial over non-negative atoms
+    if x.q is None and len(x.p) == 1:
+        (m, c), = x.p.items()
+        if c == 1 and all((ex * num) % den == 0 and a in ST.nonneg_atoms for a, ex in m):
+            return SR({tuple((a, ex * num // den) for a, ex in m): ONE})
     key = ('root', x.key(), num, den)
     eng = ST.engine
     y = eng.defs_cache.get(key)
@@ -819,8 +1050,13 @@ def sym_pow(x, e):
         yd = yv
         for _ in range(den - 1):
             yd = yd * yv
-        eng.add_def(z3.And(yv >= 0, yd == xn.z))
+        if xn.q is None:
+            eng.add_def(z3.And(yv >= 0, yd == xn.z))
+        else:
+            eng.add_def(z3.And(yv >= 0, yd * _zpoly(xn.q) == _zpoly(xn.p)))
         y = SR.atom(yv)
+        (m, _), = y.p.items()
+        ST.nonneg_atoms.add(m[0][0])
         eng.defs_cache[key] = y
     return y
 
